@@ -13,6 +13,11 @@
     inner-solver function, satisfies the contract (ApproxKKT criterion; lazy and eager gradient
     evaluation) — with the sizes of `x`, `y`, `err_z` proved from the model (`Proofs/PanocSized`) and
     the fuel hypothesis discharged (`Proofs/PanocFuel`); closed examples at the end of the file.
+    It is the corollary of `panoc_satisfies_inner_contract_on` (consistency of `eval_ψ_grad_ψ` asked
+    on well-sized arguments only, and only of a run with `eager_gradient_eval`: `OracleContractOn`),
+    itself the corollary of `panoc_satisfies_inner_contract_grad` (only the gradient half of that
+    consistency, nothing about the workspace `work_m`: `OracleContractGrad`); invariants in
+    `Proofs/PanocInvOn`, `Proofs/C01PanocOn`.
   The contract speaks about *well-formed* calls only (`WFCall n m`: `x` of size `n`; `y`, `Σ`, the
   `err_z` buffer of size `m`) — ALM only ever makes such calls, which is proved along the loop.
   Real-number semantics (ordered field, no NaN); IEEE rounding is not modelled.
@@ -21,6 +26,7 @@ import Alpaqa.Props.C01
 import Alpaqa.Props.C04
 import Alpaqa.Props.C07
 import Alpaqa.Proofs.C01Panoc
+import Alpaqa.Proofs.C01PanocOn
 
 namespace Alpaqa.Props.C01Alm
 open Alpaqa Alpaqa.Gen Alpaqa.C07 Alpaqa.C04 Alpaqa.Props.C01 Alpaqa.Props.C07
@@ -374,6 +380,57 @@ structure OracleContract (pb : ProblemCF α) (n m : Nat) (Pf : Vec α → Vec α
       Only used with `eager_gradient_eval`. -/
   law : ∀ y Sig, y.length = m → Sig.length = m → OracleLaw (Pf y Sig)
 
+/-- `OracleContract` with the consistency clause **relativised to well-sized arguments and to the mode
+    that reads it**: `eval_ψ_grad_ψ` has to be consistent with `eval_ψ` / `eval_grad_L` only at `x` of
+    size `n` (`Proofs/PanocInvOn.OracleLawOn`: where the oracles are specified), and only if
+    `eager_gradient_eval` is set (`eager`: the value of that parameter; with lazy evaluation PANOC
+    never calls `eval_ψ_grad_ψ(x̂)`).  Every other clause is that of `OracleContract` — all of them
+    already speak about well-sized arguments only. -/
+structure OracleContractOn (pb : ProblemCF α) (n m : Nat) (eager : Bool)
+    (Pf : Vec α → Vec α → Panoc.Problem α) : Prop where
+  yhat : ∀ y Sig x, y.length = m → Sig.length = m → x.length = n →
+    ((Pf y Sig).psi x).2 = yhatCF pb x y Sig
+  gradL : ∀ y Sig x yh, y.length = m → Sig.length = m → x.length = n → yh.length = m →
+    (Pf y Sig).gradL x yh = pb.gradL x yh
+  prox : ∀ y Sig γ x g, y.length = m → Sig.length = m → x.length = n → g.length = n →
+    ((Pf y Sig).prox γ x g).2.1 = vadd x (projStepVO γ x g pb.C) ∧
+    ((Pf y Sig).prox γ x g).2.2 = projStepVO γ x g pb.C
+  sized : ∀ y Sig, y.length = m → Sig.length = m → ProblemSized n m (Pf y Sig)
+  lawOn : eager = true → ∀ y Sig, y.length = m → Sig.length = m → OracleLawOn n (Pf y Sig)
+
+/-- the unrestricted contract implies the relativised one, in either mode -/
+theorem OracleContract.on {pb : ProblemCF α} {n m : Nat} {Pf : Vec α → Vec α → Panoc.Problem α}
+    (h : OracleContract pb n m Pf) (eager : Bool) : OracleContractOn pb n m eager Pf :=
+  ⟨h.yhat, h.gradL, h.prox, h.sized, fun _ y Sig hy hS => (h.law y Sig hy hS).on n⟩
+
+/-- the eager contract is the stronger one -/
+theorem OracleContractOn.mono {pb : ProblemCF α} {n m : Nat} {Pf : Vec α → Vec α → Panoc.Problem α}
+    (h : OracleContractOn pb n m true Pf) (eager : Bool) : OracleContractOn pb n m eager Pf :=
+  ⟨h.yhat, h.gradL, h.prox, h.sized, fun _ => h.lawOn rfl⟩
+
+/-- `OracleContractOn` with **nothing demanded about the workspace** of `eval_ψ_grad_ψ`: of the
+    consistency law only the gradient half is kept (`Proofs/PanocInvOn.GradLawOn`: the gradient
+    `eval_ψ_grad_ψ` returns at `x ∈ ℝⁿ` is `eval_grad_L(x, ŷ(x))`), and only for a run with
+    `eager_gradient_eval`.  What `eval_ψ_grad_ψ` leaves in `work_m` is constrained by `sized` alone
+    (`ProblemSized.pgp_work`: an `m`-vector). -/
+structure OracleContractGrad (pb : ProblemCF α) (n m : Nat) (eager : Bool)
+    (Pf : Vec α → Vec α → Panoc.Problem α) : Prop where
+  yhat : ∀ y Sig x, y.length = m → Sig.length = m → x.length = n →
+    ((Pf y Sig).psi x).2 = yhatCF pb x y Sig
+  gradL : ∀ y Sig x yh, y.length = m → Sig.length = m → x.length = n → yh.length = m →
+    (Pf y Sig).gradL x yh = pb.gradL x yh
+  prox : ∀ y Sig γ x g, y.length = m → Sig.length = m → x.length = n → g.length = n →
+    ((Pf y Sig).prox γ x g).2.1 = vadd x (projStepVO γ x g pb.C) ∧
+    ((Pf y Sig).prox γ x g).2.2 = projStepVO γ x g pb.C
+  sized : ∀ y Sig, y.length = m → Sig.length = m → ProblemSized n m (Pf y Sig)
+  gradLaw : eager = true → ∀ y Sig, y.length = m → Sig.length = m → GradLawOn n (Pf y Sig)
+
+/-- the full law on `ℝⁿ` contains its gradient half -/
+theorem OracleContractOn.grad {pb : ProblemCF α} {n m : Nat} {e : Bool}
+    {Pf : Vec α → Vec α → Panoc.Problem α} (h : OracleContractOn pb n m e Pf) :
+    OracleContractGrad pb n m e Pf :=
+  ⟨h.yhat, h.gradL, h.prox, h.sized, fun he y Sig hy hS => (h.lawOn he y Sig hy hS).grad⟩
+
 /-- PANOC's parameters for an inner call: tolerance and `always_overwrite_results` from the options -/
 def panocParams (pr : Panoc.Params α) (c : InnerCall α) : Panoc.Params α :=
   { pr with tolerance := c.opts.tolerance, alwaysOverwrite := c.opts.always_overwrite_results }
@@ -401,22 +458,24 @@ theorem fuelOK_panocParams {pr : Panoc.Params α} {nf K : Nat} (h : FuelOK pr nf
     FuelOK (panocParams pr c) nf K :=
   ⟨h.lstart_pos, h.clamp, h.lgf, h.minLs, h.lmax, h.K_pos, h.tau, h.fuel⟩
 
-/-- **PANOC satisfies `InnerContract`** for the ApproxKKT criterion (the default; part of the
-    property statement), with lazy *and* eager gradient evaluation, for every direction provider
-    meeting its size contract on the states PANOC reaches (`DirSized`; proved for the four shipped
-    providers in `Props/Directions.lean`), every monotone stop schedule, clock, ALM stop oracle, every `L0`, and parameters with
-    `0 ≤ min_linesearch_coefficient`, `0 < Lγ_factor`, `0 < L_min`, `0 < L_max`
-    (`Props/C05.ParamsOK`, needed for `γ > 0`) and `FuelOK pr nf K` (`Proofs/PanocFuel`: the model's
-    loops provably terminate within their fuel).
-    Nothing is assumed about the run itself: which iterate is written back, that `ε` is the
-    ApproxKKT criterion of exactly that iterate with `∇ψ(x̂) = ∇L(x̂, ŷ)` (the `∇ψ(x̂)`-buffer
-    invariant of `Proofs/C01Panoc.lean`; in eager mode through the consistency of the problem's
-    oracles, `OracleContract.law`), `γ > 0`, `y = ŷ(x̂)`, `err_z = (ŷ − y)/Σ`,
-    `Converged ⇒ ε ≤ tolerance`, the sizes of `x`, `y`, `err_z` (`Proofs/PanocSized`), and that the
-    model's fuel does not run out are all proved from the loop model. -/
-theorem panoc_satisfies_inner_contract (pb : ProblemCF α) (n m : Nat)
-    (Pf : Vec α → Vec α → Panoc.Problem α) (hO : OracleContract pb n m Pf)
-    (dir : Direction Dd α) (d0 : Dd) (hD : DirSized n dir d0) (pr : Panoc.Params α) (hp : ParamsOK pr)
+/-- **PANOC satisfies `InnerContract`; of the oracles' mutual consistency only the gradient half is
+    used, on well-sized arguments only, in eager mode only** (`OracleContractGrad`, at the run's own
+    `eager_gradient_eval`) — the general form of `panoc_satisfies_inner_contract_on` and
+    `panoc_satisfies_inner_contract` below.  **Nothing is assumed about what `eval_ψ_grad_ψ` leaves in
+    its workspace `work_m`** beyond its size: the PANOC model (as panoc.tpp) treats `ŷx̂` after an eager
+    evaluation as workspace and re-evaluates `eval_ψ` where `ŷ` is read (`headEvalYhat`, the exit
+    block); the `∇ψ(x̂)`-buffer invariant is therefore carried against `ŷ(x̂)` itself
+    (`Proofs/PanocInvOn.GradHatPsiOn`) and the iterate the contract speaks about is the head's one
+    with `ŷx̂` replaced by `ŷ(x̂)` — what the exit block writes back; the ApproxKKT residual does not
+    read `ŷ`.  The PANOC model only ever evaluates its oracles at vectors of size `n`
+    (`Proofs/PanocSized`): the invariants are carried in their relativised forms
+    (`Proofs/C01PanocOn.run_exit_inv_on`) together with the size invariant that discharges their side
+    condition.  Same hypotheses about provider, parameters, fuel and stop schedule as below; nothing
+    is assumed about the run. -/
+theorem panoc_satisfies_inner_contract_grad (pb : ProblemCF α) (n m : Nat)
+    (Pf : Vec α → Vec α → Panoc.Problem α) (pr : Panoc.Params α)
+    (hO : OracleContractGrad pb n m pr.eagerGradientEval Pf)
+    (dir : Direction Dd α) (d0 : Dd) (hD : DirSized n dir d0) (hp : ParamsOK pr)
     (nf K : Nat) (hF : FuelOK pr nf K)
     (hcrit : pr.stopCrit = .ApproxKKT)
     (stop : InnerCall α → Nat → Bool) (hmono : ∀ c, StopMono (stop c))
@@ -451,15 +510,16 @@ theorem panoc_satisfies_inner_contract (pb : ProblemCF α) (n m : Nat)
     generalize hpr' : panocParams pr c = pr' at hc hf ⊢
     have hp' : ParamsOK pr' := by subst hpr'; exact ⟨hp.minLs, hp.lgf, hp.lmin, hp.lmax⟩
     have hcrit' : pr'.stopCrit = .ApproxKKT := by subst hpr'; exact hcrit
-    have hmode : YhatMode (Pf c.y c.sigma) pr' := Or.inr (hO.law c.y c.sigma hwf.y hwf.sigma)
+    have hmode : GradModeOn n (Pf c.y c.sigma) pr' := gradModeOn_of_eager n _ _ (fun he =>
+      hO.gradLaw (by subst hpr'; exact he) c.y c.sigma hwf.y hwf.sigma)
     have htol' : pr'.tolerance = c.opts.tolerance := by subst hpr'; rfl
-    rcases run_exit_inv (Pf c.y c.sigma) hPs dir d0 hD pr' hp' (stop c) (oot c) c.x c.y c.sigma c.errBuf
+    rcases run_exit_inv_on (Pf c.y c.sigma) hPs dir d0 hD pr' hp' (stop c) (oot c) c.x c.y c.sigma c.errBuf
       gV gS iS hwf.x hf with hnf | ⟨s', hinv, hrun⟩
     · rw [hnf] at hc; cases hc
     · set P := Pf c.y c.sigma with hP
       set sh := (headStep P pr' (stop c) (oot c) s').1 with hsh
-      have hgood := (headStep_good P pr' (stop c) (oot c) s' hinv.good).1
-      have hgh := headStep_gh P pr' (stop c) (oot c) s' hinv.good hinv.grad
+      have hgood := (headStep_good_on n P pr' (stop c) (oot c) s' hinv.good).1
+      have hgh := headStep_ghp n P pr' (stop c) (oot c) s' hinv.good hinv.sized.xhat hinv.gradPsi
       have hloop := headStep_inv False True P pr' (stop c) (oot c) s' hinv.loop
       have hsz : Sized n m sh.curr := headStep_sized hPs pr' (stop c) (oot c) s' hinv.sized
       have hst := headStep_status P pr' (stop c) (oot c) s'
@@ -467,34 +527,37 @@ theorem panoc_satisfies_inner_contract (pb : ProblemCF α) (n m : Nat)
       have hfields := exitBlock_fields P pr' sh (headStep P pr' (stop c) (oot c) s').2.1
         (headStep P pr' (stop c) (oot c) s').2.2 c.x c.y c.sigma c.errBuf
       rw [hfields.1] at hc
-      have hok := exitBlock_ok P pr' sh (headStep P pr' (stop c) (oot c) s').2.1
-        (headStep P pr' (stop c) (oot c) s').2.2 c.x c.y c.sigma c.errBuf hgood
-        (headStep_yhatValid P pr' (stop c) (oot c) s' hinv.good)
+      have hok := exitBlock_ok_of_proxCons P pr' sh (headStep P pr' (stop c) (oot c) s').2.1
+        (headStep P pr' (stop c) (oot c) s').2.2 c.x c.y c.sigma c.errBuf hgood.1
+        (headStep_yhatValid_on n P pr' (stop c) (oot c) s' hinv.good hinv.sized.xhat)
       have hw : (exitBlock P pr' sh (headStep P pr' (stop c) (oot c) s').2.1
           (headStep P pr' (stop c) (oot c) s').2.2 c.x c.y c.sigma c.errBuf).wrote = true := by
         rw [hok.2.1, hc]; rfl
       obtain ⟨it, _, hx, hxh, hpp, hg, hgr, hgrh, _, hsame, hwr⟩ := exitBlock_final P pr' sh
         (headStep P pr' (stop c) (oot c) s').2.1 (headStep P pr' (stop c) (oot c) s').2.2
         c.x c.y c.sigma c.errBuf
-      -- the iterate written back agrees with the head's one in everything the contract reads
-      have hyy : sh.curr.yhat = (P.psi sh.curr.xhat).2 := hgood.2 hmode
-      have hity : it.yhat = sh.curr.yhat := by
+      -- the iterate written back is the head's one with `ŷx̂ := ŷ(x̂)` (the head's `ŷx̂` may be workspace
+      -- content in eager mode); the contract is stated for that iterate
+      have hity : it.yhat = (P.psi sh.curr.xhat).2 := by
         have h1 := (hok.1.1 hw).2.1
         rw [(hwr hw).1, (hwr hw).2, hxh] at h1
-        rw [h1, hyy]
+        exact h1
       have hprox := hO.prox c.y c.sigma sh.curr.gamma sh.curr.x sh.curr.gradPsi hwf.y hwf.sigma hsz.x hsz.g
-      have hyh : sh.curr.yhat = yhatCF pb sh.curr.xhat c.y c.sigma := by
-        rw [hyy, hO.yhat c.y c.sigma _ hwf.y hwf.sigma hsz.xhat]
+      have hyl : (P.psi sh.curr.xhat).2.length = m := hPs.psi_yhat _ hsz.xhat
+      have hyh : (P.psi sh.curr.xhat).2 = yhatCF pb sh.curr.xhat c.y c.sigma :=
+        hO.yhat c.y c.sigma _ hwf.y hwf.sigma hsz.xhat
       have hflag : sh.curr.haveGradHat = true := hgh.2 (by rw [hcrit']; rfl)
-      have hgL : sh.curr.gradPsiHat = pb.gradL sh.curr.xhat sh.curr.yhat := by
-        rw [hgh.1 hmode hflag, hO.gradL c.y c.sigma _ _ hwf.y hwf.sigma hsz.xhat hsz.yhat]
+      have hgL : sh.curr.gradPsiHat = pb.gradL sh.curr.xhat (P.psi sh.curr.xhat).2 := by
+        rw [hgh.1 hmode hsz.xhat hflag, hO.gradL c.y c.sigma _ _ hwf.y hwf.sigma hsz.xhat hyl]
       have heps : (headStep P pr' (stop c) (oot c) s').2.1 =
           stopCrit_ApproxKKT (fun _ v _ => (v, v)) sh.curr.p sh.curr.gamma sh.curr.x sh.curr.xhat
-            sh.curr.yhat sh.curr.gradPsi sh.curr.gradPsiHat := by
+            (P.psi sh.curr.xhat).2 sh.curr.gradPsi sh.curr.gradPsiHat := by
         rw [hst.1]; unfold epsOf; rw [hcrit']; rfl
-      refine ⟨sh.curr, hloop.gok.1, ?_, ?_, hyh, hgL, ?_, ?_, ?_, ?_, ?_⟩
-      · rw [hgood.1.2.1]; exact hprox.1
-      · rw [hgood.1.2.2]; exact hprox.2
+      refine ⟨{ sh.curr with yhat := (P.psi sh.curr.xhat).2 }, hloop.gok.1, ?_, ?_, hyh, hgL, ?_, ?_, ?_, ?_, ?_⟩
+      · show sh.curr.xhat = _
+        rw [hgood.1.2.1]; exact hprox.1
+      · show sh.curr.p = _
+        rw [hgood.1.2.2]; exact hprox.2
       · rw [(hwr hw).1, hxh]
       · rw [(hwr hw).2, hity]
       · rw [hfields.2.1]; exact heps
@@ -532,6 +595,45 @@ theorem panoc_satisfies_inner_contract (pb : ProblemCF α) (n m : Nat)
   · intro c hwf ht hc
     obtain ⟨_, _, _, _, _, _, _, _, _, _, htol⟩ := key c hwf hc
     exact htol ht
+
+/-- **PANOC satisfies `InnerContract`, oracle consistency demanded on well-sized arguments only**
+    (`OracleContractOn`: the full law `OracleLawOn n`, at the run's own `eager_gradient_eval`) —
+    corollary of `panoc_satisfies_inner_contract_grad`, which uses its gradient half only. -/
+theorem panoc_satisfies_inner_contract_on (pb : ProblemCF α) (n m : Nat)
+    (Pf : Vec α → Vec α → Panoc.Problem α) (pr : Panoc.Params α)
+    (hO : OracleContractOn pb n m pr.eagerGradientEval Pf)
+    (dir : Direction Dd α) (d0 : Dd) (hD : DirSized n dir d0) (hp : ParamsOK pr)
+    (nf K : Nat) (hF : FuelOK pr nf K)
+    (hcrit : pr.stopCrit = .ApproxKKT)
+    (stop : InnerCall α → Nat → Bool) (hmono : ∀ c, StopMono (stop c))
+    (oot clock almStop : InnerCall α → Bool) (gV : Vec α) (gS iS : α) :
+    InnerContract pb n m (panocInner Pf dir d0 pr stop oot clock almStop gV gS iS) :=
+  panoc_satisfies_inner_contract_grad pb n m Pf pr hO.grad dir d0 hD hp nf K hF hcrit stop hmono oot clock
+    almStop gV gS iS
+
+/-- **PANOC satisfies `InnerContract`** for the ApproxKKT criterion (the default; part of the
+    property statement), with lazy *and* eager gradient evaluation, for every direction provider
+    meeting its size contract on the states PANOC reaches (`DirSized`; proved for the four shipped
+    providers in `Props/Directions.lean`), every monotone stop schedule, clock, ALM stop oracle, every `L0`, and parameters with
+    `0 ≤ min_linesearch_coefficient`, `0 < Lγ_factor`, `0 < L_min`, `0 < L_max`
+    (`Props/C05.ParamsOK`, needed for `γ > 0`) and `FuelOK pr nf K` (`Proofs/PanocFuel`: the model's
+    loops provably terminate within their fuel).
+    Nothing is assumed about the run itself: which iterate is written back, that `ε` is the
+    ApproxKKT criterion of exactly that iterate with `∇ψ(x̂) = ∇L(x̂, ŷ)` (the `∇ψ(x̂)`-buffer
+    invariant of `Proofs/C01Panoc.lean`; in eager mode through the consistency of the problem's
+    oracles, `OracleContract.law`), `γ > 0`, `y = ŷ(x̂)`, `err_z = (ŷ − y)/Σ`,
+    `Converged ⇒ ε ≤ tolerance`, the sizes of `x`, `y`, `err_z` (`Proofs/PanocSized`), and that the
+    model's fuel does not run out are all proved from the loop model. -/
+theorem panoc_satisfies_inner_contract (pb : ProblemCF α) (n m : Nat)
+    (Pf : Vec α → Vec α → Panoc.Problem α) (hO : OracleContract pb n m Pf)
+    (dir : Direction Dd α) (d0 : Dd) (hD : DirSized n dir d0) (pr : Panoc.Params α) (hp : ParamsOK pr)
+    (nf K : Nat) (hF : FuelOK pr nf K)
+    (hcrit : pr.stopCrit = .ApproxKKT)
+    (stop : InnerCall α → Nat → Bool) (hmono : ∀ c, StopMono (stop c))
+    (oot clock almStop : InnerCall α → Bool) (gV : Vec α) (gS iS : α) :
+    InnerContract pb n m (panocInner Pf dir d0 pr stop oot clock almStop gV gS iS) :=
+  panoc_satisfies_inner_contract_on pb n m Pf pr (hO.on _) dir d0 hD hp nf K hF hcrit stop hmono oot clock
+    almStop gV gS iS
 
 /-! #### The oracles built from the closed forms meet `OracleContract` -/
 
